@@ -117,6 +117,10 @@ class Interp:
             raise Unknown(f"expression {type(e).__name__}: {ast.unparse(e)[:60]}")
         return m(e)
 
+    def ev_JoinedStr(self, e):
+        # a message (f-string): its text plays no part in a layout
+        return "<message>"
+
     def ev_Constant(self, e):
         return e.value
 
